@@ -1,6 +1,6 @@
 \* a poll that drains by count: two polls in flight over-count the backlog; one of them blocks for ever
 \* (Answered fails) or, once the backend has closed, receives nil and panics (NoPanic fails)
-CONSTANTS Q = 2 NClient = 1 NServer = 2 Calls = {k1, k2} CloseClosesChan = FALSE DrainByCount = TRUE
+CONSTANTS Q = 2 NClient = 1 NServer = 2 Calls = {k1, k2} CloseClosesChan = FALSE DrainByCount = TRUE SweepDone = FALSE
 SPECIFICATION Spec
 CHECK_DEADLOCK FALSE
 INVARIANTS NoPanic
